@@ -460,7 +460,7 @@ func c08Run(r *mon.Run) {
 			func() *gen.Node { return gen.Int("2").R("enum", `[1, 2]`) },
 		}
 		keyTypes := func() []gen.NamedNode {
-			return []gen.NamedNode{{Name: "@k0", Node: gen.Str("abc")}, {Name: "@k1", Node: gen.Str("12").R("regex", gen.Q("^[0-9]+$"))}, {Name: "@k2", Node: gen.Str("x-1").R("minLength", "2")}}
+			return []gen.NamedNode{{Name: "@k0", Node: gen.Str("abc")}, {Name: "@k1", Node: gen.Str("12").R("regex", gen.Q("^[0-9]+$"))}, {Name: "@k2", Node: gen.Str("x-\"").R("minLength", "2")}}
 		}
 		si := 0
 		grng := r.Rand("c08-grid")
